@@ -225,6 +225,10 @@ def use_lemma(fn, *a, **k):
     return fn(*a, **k)
 
 
+def withheld(name):
+    raise NotReplayable("dependence-set obligations are symbolic-only")
+
+
 def abstract(name, term):
     return term
 
